@@ -74,3 +74,7 @@ package db
 //@   props C02 C13
 //@   trusted
 //@   sqltext "DELETE FROM certificate_info WHERE certificate_id = $1;"
+
+// schema clauses the one-row-per-height assumption rests on (C02, C13; A5), pinned
+//@ filepin C02,C13 migrations/0001.sql "signed_certificate TEXT, PRIMARY KEY (height) );"
+//@ filepin C02,C13 migrations/0001.sql "signed_certificate TEXT, PRIMARY KEY (height, retry_count) );"
